@@ -27,6 +27,11 @@ pub struct Exec {
     mix: [f64; 4],
     overlap: bool,
     rng: Mutex<Rng>,
+    /// second stream for the simulated worker indices (keeps the join-outcome tape as it was)
+    idx_rng: Mutex<Rng>,
+    /// simulated worker index per execution context (the plain thread, or a shuttle task in
+    /// overlap mode): a stack, one entry per nested arm
+    workers: Mutex<Vec<(String, Vec<usize>)>>,
     depth: AtomicUsize,
     pub stats: Mutex<ExecStats>,
 }
@@ -39,6 +44,8 @@ impl Exec {
             mix: [s.mix[0].0, s.mix[1].0, s.mix[2].0, s.mix[3].0],
             overlap: s.overlap,
             rng: Mutex::new(Rng::new(s.tape_seed)),
+            idx_rng: Mutex::new(Rng::new(s.tape_seed ^ 0x1d0f_5eed_0a11_c0de)),
+            workers: Mutex::new(vec![]),
             depth: AtomicUsize::new(0),
             stats: Mutex::new(ExecStats::default()),
         })
@@ -54,6 +61,50 @@ impl Exec {
 
     pub fn stats(&self) -> ExecStats {
         self.stats.lock().unwrap_or_else(|e| e.into_inner()).clone()
+    }
+
+    fn ctx_key() -> String {
+        if crate::ctl::in_shuttle_thread() {
+            format!("{:?}", shuttle::thread::current().id())
+        } else {
+            String::new()
+        }
+    }
+    fn cur_worker(&self) -> Option<usize> {
+        let key = Self::ctx_key();
+        let g = self.workers.lock().unwrap_or_else(|e| e.into_inner());
+        g.iter().find(|(k, _)| *k == key).and_then(|(_, st)| st.last().copied())
+    }
+    fn push_worker(&self, idx: usize) {
+        let key = Self::ctx_key();
+        let mut g = self.workers.lock().unwrap_or_else(|e| e.into_inner());
+        match g.iter_mut().find(|(k, _)| *k == key) {
+            Some((_, st)) => st.push(idx),
+            None => g.push((key, vec![idx])),
+        }
+    }
+    fn pop_worker(&self) {
+        let key = Self::ctx_key();
+        let mut g = self.workers.lock().unwrap_or_else(|e| e.into_inner());
+        if let Some(pos) = g.iter().position(|(k, _)| *k == key) {
+            g[pos].1.pop();
+            if g[pos].1.is_empty() {
+                g.remove(pos);
+            }
+        }
+    }
+    /// a worker other than `me` (the thief)
+    fn other_worker(&self, me: usize) -> usize {
+        if self.pool <= 1 {
+            return me;
+        }
+        let mut g = self.idx_rng.lock().unwrap_or_else(|e| e.into_inner());
+        let k = g.below(self.pool as u64 - 1) as usize;
+        if k >= me {
+            k + 1
+        } else {
+            k
+        }
     }
 
     fn draw(&self) -> JoinOutcome {
@@ -100,6 +151,10 @@ impl SimExec for Exec {
         self.pool
     }
 
+    fn thread_index(&self) -> Option<usize> {
+        self.cur_worker()
+    }
+
     fn join(&self, a: Arm<'_>, b: Arm<'_>) {
         let top = self.depth.fetch_add(1, Ordering::SeqCst) == 0;
         let inj = top && self.injected;
@@ -124,6 +179,41 @@ impl SimExec for Exec {
             }
         }
         let _dec = Dec(&self.depth);
+        // simulated worker identities: the code that called join runs on worker `me` (drawn when
+        // this context enters its first join), an arm that is not stolen stays on `me`, a stolen
+        // arm runs on another worker
+        let fresh_ctx = self.cur_worker().is_none();
+        let me = match self.cur_worker() {
+            Some(w) => w,
+            None => {
+                let w = self.idx_rng.lock().unwrap_or_else(|e| e.into_inner()).below(self.pool as u64) as usize;
+                self.push_worker(w);
+                w
+            }
+        };
+        struct PopCtx<'a>(&'a Exec, bool);
+        impl Drop for PopCtx<'_> {
+            fn drop(&mut self) {
+                if self.1 {
+                    self.0.pop_worker();
+                }
+            }
+        }
+        let _pop = PopCtx(self, fresh_ctx);
+        let thief = if outcome == JoinOutcome::Inline { me } else { self.other_worker(me) };
+        let this: &Exec = self;
+        let mut b_on = |ctx: bool| {
+            this.push_worker(thief);
+            struct P<'a>(&'a Exec);
+            impl Drop for P<'_> {
+                fn drop(&mut self) {
+                    self.0.pop_worker();
+                }
+            }
+            let _p = P(this);
+            b(ctx)
+        };
+        let b: Arm<'_> = &mut b_on;
         match outcome {
             JoinOutcome::Inline => run_two(a, inj, b, inj),
             JoinOutcome::StolenLate => run_two(a, inj, b, true),
